@@ -119,6 +119,75 @@ pub fn run(opts: &Opts) -> Run {
             }
         }
     }
+    // (c) what a REUSED decoder holds: hand-made frames of raw blocks (so the number of bytes decoded after k blocks is
+    // known exactly), decoded block by block with `collect()` after every block, on a decoder whose previous frame
+    // declared a much larger (or smaller) window.  held = decoded - collected must stay <= window + one block.
+    let raw_frame = |window_desc: u8, nblocks: usize, bsize: usize, rng: &mut Rng| -> (Vec<u8>, Vec<u8>) {
+        let mut f = vec![0x28, 0xb5, 0x2f, 0xfd, 0x00, window_desc];
+        let mut data = vec![];
+        for k in 0..nblocks {
+            let blk = rng.bytes(bsize);
+            let h = ((bsize as u32) << 3) | if k + 1 == nblocks { 1 } else { 0 };
+            f.extend_from_slice(&h.to_le_bytes()[..3]);
+            f.extend_from_slice(&blk);
+            data.extend_from_slice(&blk);
+        }
+        (f, data)
+    };
+    let wsize = |wd: u8| -> usize {
+        let base = 1usize << (10 + (wd >> 3));
+        base + base / 8 * (wd & 7) as usize
+    };
+    for &(prev_wd, wd, nblocks, bsize) in &[(13u8 << 3, 0u8, 600usize, 1000usize), (0, 0, 600, 1000), (13 << 3, 7 << 3, 40, 100_000), (0, 10 << 3, 30, 131_072), (10 << 3, 3, 900, 1024)] {
+        let (prev, _) = raw_frame(prev_wd, 1, 10, &mut rng);
+        let (frame, data) = raw_frame(wd, nblocks, bsize, &mut rng);
+        let window = wsize(wd);
+        for reused in [false, true] {
+            run.oracle_checks += 1;
+            crate::util::watchdog::beat(None);
+            let label = format!("{} decoder (previous window {} B), frame of {} raw blocks of {} B, window {} B", if reused { "reused" } else { "fresh" }, wsize(prev_wd), nblocks, bsize, window);
+            let r = guarded(|| {
+                let mut d = FrameDecoder::new();
+                if reused {
+                    let mut src = &prev[..];
+                    d.reset(&mut src).map_err(|e| format!("{:?}", e))?;
+                    d.decode_blocks(&mut src, BlockDecodingStrategy::All).map_err(|e| format!("{:?}", e))?;
+                    let _ = d.collect();
+                }
+                let mut src = &frame[..];
+                d.reset(&mut src).map_err(|e| format!("{:?}", e))?;
+                let mut collected = 0usize;
+                let mut max_held = 0usize;
+                let mut k = 0usize;
+                while !d.is_finished() {
+                    d.decode_blocks(&mut src, BlockDecodingStrategy::UptoBlocks(1)).map_err(|e| format!("{:?}", e))?;
+                    k += 1;
+                    if let Some(v) = d.collect() {
+                        collected += v.len();
+                    }
+                    let decoded = (k * bsize).min(data.len());
+                    if !d.is_finished() {
+                        max_held = max_held.max(decoded - collected.min(decoded));
+                    }
+                }
+                Ok::<(usize, usize), String>((max_held, collected))
+            });
+            distinct += 1;
+            match r {
+                Ok(Ok((max_held, collected))) => {
+                    run.stat(&format!("held_after_collect:{}:{}", if reused { "reused" } else { "fresh" }, window), max_held as u64);
+                    if collected != data.len() {
+                        run.fail("C01", "wrong_length", format!("[{}] delivered {} of {}", label, collected, data.len()), String::new());
+                    }
+                    if max_held > window + BLOCK {
+                        run.fail("C05", "held_beyond_window", format!("[{}] after collect() the decoder still held {} decoded bytes (> window {} + one block)", label, max_held, window), format!("# previous frame, then this frame, decoded with UptoBlocks(1) + collect() on one decoder\nhostile input {}\nhostile input {}", hex(&prev), hex(&frame[..frame.len().min(300_000)])));
+                    }
+                }
+                Ok(Err(e)) => run.fail("C01", "rejects_valid_frame", format!("[{}] {}", label, e), String::new()),
+                Err(p) => run.fail("C03", "panic_valid_frame", format!("[{}] {}", label, p), String::new()),
+            }
+        }
+    }
     run.stat("distinct_nontrivial", distinct);
     run
 }
